@@ -179,6 +179,7 @@ type world struct {
 	rorder  [][2]int
 	cmds    map[uuid.UUID]*cmdInfo
 	nextID  int
+	active  *disruption.Command // the command the running Queue.Reconcile processes
 	gone    map[int]bool
 	fired   map[string]int
 }
@@ -383,13 +384,9 @@ func (w *world) replKeyOf(obj client.Object) ([2]int, bool) {
 func (w *world) replsReady(id int) (api bool, tracked bool) {
 	w.mu.Lock()
 	var names []string
-	for _, ci := range w.cmds {
-		for _, cand := range ci.Cmd.Candidates {
-			if cand.ProviderID() == providerID(id) {
-				for _, r := range ci.Cmd.Replacements {
-					names = append(names, r.Name)
-				}
-			}
+	if w.active != nil { // the command Queue.Reconcile is processing right now
+		for _, r := range w.active.Replacements {
+			names = append(names, r.Name)
 		}
 	}
 	w.mu.Unlock()
@@ -482,11 +479,9 @@ func (w *world) funcs() interceptor.Funcs {
 				return err
 			}
 			w.mu.Lock()
-			for _, ci := range w.cmds {
-				for _, cand := range ci.Cmd.Candidates {
-					if cand.ProviderID() == providerID(id) {
-						ci.Deleted[id] = true
-					}
+			if w.active != nil {
+				if ci := w.cmds[w.active.ID]; ci != nil {
+					ci.Deleted[id] = true
 				}
 			}
 			w.effects = append(w.effects, effect{Kind: "delete", A: id, Flag: ready, Flag2: tracked})
@@ -718,11 +713,7 @@ func (w *world) exec(o *jOp) []effect {
 		default:
 			panic("unexpected StartCommand error: " + err.Error())
 		}
-		if err != nil {
-			w.mu.Lock()
-			delete(w.cmds, cmd.ID)
-			w.mu.Unlock()
-		}
+		// (the harness never forgets a command it has handed to the queue: what is in flight is read from the queue)
 	case "recon":
 		// replacement Get faults are keyed by (owning command, index)
 		owner := w.queue.ProviderIDToCommand[providerID(o.Node)]
@@ -740,6 +731,15 @@ func (w *world) exec(o *jOp) []effect {
 		if owner != nil {
 			key = owner.Candidates[0].NodeClaim.Name
 		}
+		// Queue.Reconcile looks the command up by the provider id of the NodeClaim it is handed; on an intact queue that
+		// is the owner again. The observation follows what the implementation actually does.
+		var actual *disruption.Command
+		if id, ok := idOfName(key); ok {
+			actual = w.queue.ProviderIDToCommand[providerID(id)]
+		}
+		w.mu.Lock()
+		w.active = actual
+		w.mu.Unlock()
 		counted := &countingReconciler{q: w.queue}
 		res, err := reconcile.AsReconciler[*v1.NodeClaim](w.inner, counted).Reconcile(w.ctx, reconcile.Request{NamespacedName: types.NamespacedName{Name: key}})
 		if err != nil {
@@ -748,20 +748,18 @@ func (w *world) exec(o *jOp) []effect {
 		switch {
 		case counted.calls == 0:
 			o.Ret = "RDropped"
-		case owner == nil:
+		case actual == nil:
 			o.Ret = "RNoCmd"
 		case res.RequeueAfter > 0:
 			o.Ret = "RRequeue"
-		case owner.Succeeded:
+		case actual.Succeeded:
 			o.Ret = "RSucceeded"
 		default:
 			o.Ret = "RFailed"
 		}
-		if owner != nil && o.Ret != "RRequeue" && o.Ret != "RDropped" {
-			w.mu.Lock()
-			delete(w.cmds, owner.ID)
-			w.mu.Unlock()
-		}
+		w.mu.Lock()
+		w.active = nil
+		w.mu.Unlock()
 	case "cleanup":
 		w.setFaults(o.FUnt, "Node", "Node", nodeName)
 		w.setFaults(o.FClr, "NodeClaim", "NodeClaim", nodeName)
